@@ -1,4 +1,5 @@
 import RzmqModel.Driver.Engine
+import RzmqModel.Model.Pair
 /-! Model-side predictions for the stack-level scenarios of `harness/src/stack.rs` (trace acceptance). -/
 namespace Rzmq.Driver.Stack
 open Rzmq Rzmq.Driver
@@ -7,6 +8,9 @@ def cfgGet (s : String) (k : String) : Option String :=
   (s.splitOn ",").findSome? fun kv => match kv.splitOn "=" with
     | [k', v] => if k' == k then some v else none
     | _ => none
+
+/-- `ZmtpEngineConfig::from(&SocketOptions)`: security_enabled is derived from the mechanism options -/
+def normCfg (c : Cfg) : Cfg := { c with securityEnabled := c.usePlain || c.useCurve || c.useNoise }
 
 /-- what the application behind a receiving socket sees of the engine's deliveries -/
 def appView (ty : SockName) (o : Out) : List String :=
@@ -17,12 +21,25 @@ def appView (ty : SockName) (o : Out) : List String :=
 def runOp (p : List String) : String :=
   match p with
   | "rawpeer" :: c :: bytes :: cuts :: _ =>
-    let cfg := Engine.parseCfg c
+    let cfg := normCfg (Engine.parseCfg c)
     let chunks := chunksOf (parseBytes bytes) cuts
     let r := feedAll Engine.spec cfg Eng.init (chunks.map fun ch => (0, ch))
     let hs := if r.2.app.any isHandshakeComplete then "ok" else "no"
     s!"recv=[{" ".intercalate (appView cfg.sockType r.2)}] hs={hs}"
   | "slowdrip" :: _ => "closed=in-time"
+  | ["compat", transport, ca, cb] =>
+    let cfgA := { normCfg (Engine.parseCfg ca) with isServer := true }
+    let cfgB := { normCfg (Engine.parseCfg cb) with isServer := false }
+    if transport == "inproc" then
+      -- `validate_socket_compatibility(connector, binder)`
+      s!"bind=- conn={if Gen.inprocCompat.contains (cfgB.sockType, cfgA.sockType) then "ok" else "no"}"
+    else
+      -- any complete schedule gives the same result (C05.pair_confluent): deliver everything, alternately
+      let sched := (List.replicate 8 [Move.ab 100000, Move.ba 100000]).flatten
+      let p := Pair.run Engine.spec cfgA cfgB Pair.start sched
+      let okA := p.appA.any isHandshakeComplete
+      let okB := p.appB.any isHandshakeComplete
+      s!"bind={if okA then "ok" else "no"} conn={if okB then "ok" else "no"}"
   | _ => "bad-op"
 
 end Rzmq.Driver.Stack
